@@ -8,8 +8,8 @@ for suf in "$@"; do
     wt=/tmp/wt-$p-$suf; id=$p-$suf; prop=${p^^}
     [ -d "$wt" ] || continue
     v=$(tools/vetmutant.sh "$wt" "$id" "$prop" 2>&1 | tail -1)
+    case "$v" in *STORED*) ;; *) echo "$id: NOT CONFIRMED (worktree kept): $v"; continue;; esac
     git -C /repo worktree remove --force "$wt" 2>/dev/null
-    case "$v" in *STORED*) ;; *) echo "$id: NOT CONFIRMED: $v"; continue;; esac
     r=$(timeout 1800 tools/trymutant.sh seeded/$id/patch.diff "$prop" 2>&1)
     res=$(echo "$r" | grep "^RESULT" | head -1)
     sig=$(echo "$r" | grep "^VIOLATION" | head -2 | sed 's/.*replay=[^ ]*\///; s/\.json//' | cut -c1-90 | tr '\n' ' ')
